@@ -3,6 +3,7 @@
 -/
 import FocaModel.Proofs.MsInv
 import FocaModel.Proofs.OwnInv
+import FocaModel.Proofs.GenInv
 import FocaModel.Props.C08H
 namespace Foca.C09H
 open Foca
@@ -65,5 +66,27 @@ example : ∃ s, ReachableDoc C08H.exEnv s ∧ s.ms.map (fun m => (m.id, m.st)) 
   refine ⟨_, ReachableDoc.step (.applyMany [⟨⟨1, 5⟩, 3, .alive⟩] false) ⟨[.idx 0], []⟩ _ _ _
     (ReachableDoc.init ⟨1, 0⟩ .none C08H.exCfg) (by intro i p h; cases h) rfl, ?_⟩
   decide
+
+/-- **Never back to a superseded identity, one call.** If address `a` is listed with an identity of generation at
+    least `g`, then after any public call other than a forget-timer — any batch, any datagram bytes, any other
+    timer, any RNG — it is still listed, with an identity of generation at least `g`: a record is only ever
+    replaced by an identity that wins the conflict, and nothing but the forget-timer removes one. -/
+theorem generation_never_goes_back_step (E : Env) (a g : Nat) (s : State) (op : Op) (orc : Oracle)
+    (h : ∃ m ∈ s.ms, m.id.addr = a ∧ m.id.gen ≥ g) (hop : Op.forgets op = false) :
+    match step E s op orc with
+    | .done s' _ _ _ => ∃ m ∈ s'.ms, m.id.addr = a ∧ m.id.gen ≥ g
+    | .stuck _ => True := GenInv.step E a g s op orc h hop
+
+/-- **… over histories.** Over any history of calls in which no forget-timer fires, of any length, the generation
+    listed for an address never decreases. -/
+theorem generation_never_goes_back (E : Env) (a g : Nat) {s s' : State}
+    (hrun : RunsTo E (fun op => Op.forgets op = false) s s')
+    (h : ∃ m ∈ s.ms, m.id.addr = a ∧ m.id.gen ≥ g) : ∃ m ∈ s'.ms, m.id.addr = a ∧ m.id.gen ≥ g := by
+  induction hrun with
+  | refl => exact h
+  | step op orc eff r left _ hop hstep ih =>
+    have := generation_never_goes_back_step E a g _ op orc ih hop
+    rw [hstep] at this
+    exact this
 
 end Foca.C09H
